@@ -239,5 +239,6 @@ pub fn c20(_tier: Tier, _seed: u64) -> Prop {
         ],
         units,
         extra: no_extra(),
+        profiles: vec!["release"],
     }
 }
